@@ -23,12 +23,14 @@ import os
 import shutil
 import tempfile
 import traceback
+import zlib
 from types import SimpleNamespace
 
 import antismash.main as AM
 from antismash.common import json as AJ
 from antismash.common import hmmer as HM
 from antismash.common import pfamdb, subprocessing
+from antismash.common.hmm_rule_parser import cluster_prediction as CP
 from antismash.common.hmm_rule_parser.structures import Multipliers
 from antismash.config import build_config, destroy_config, get_config, update_config
 from antismash.detection import cluster_hmmer, full_hmmer, hmm_detection, nrps_pks_domains, sideloader
@@ -56,8 +58,8 @@ ASSUMPTIONS = [
     "record read back from a results file: record (de)serialisation is C10's subject.",
     "HMMER front ends (run_hmmscan for full/cluster hmmer; find_domains, find_subtypes, find_ab_motifs, "
     "get_database_path for NRPS/PKS domains) are replaced by generated hit lists; rule sets come from generated rule "
-    "text through the real parser with DynamicProfile hits and are handed to hmm_detection.get_ruleset through its "
-    "own cache (_RULESETS) under the key the real function computes from the options.",
+    "text through the real parser with DynamicProfile hits and stand in for the shipped files at Ruleset.from_files; "
+    "hmm_detection.get_ruleset (selection, multipliers, cache) is the real one, its cache emptied before each case.",
     "'Discarded or refused' is decided at module level: regenerate_previous_results returns None or raises, or "
     "run_on_record does not return the regenerated object (TTA checks the record id there). A logged warning is not "
     "a refusal.",
@@ -88,7 +90,7 @@ DETECTION = ["sideloader", "hmm_detection"]
 
 REQUIRED = (
     [f"op:bytes:{m}" for m in MODULES] + [f"nonempty:{m}" for m in MODULES]
-    + ["op:record-features", "op:second-cycle", "op:predicted-areas", "op:reused-object",
+    + ["guard:results-file:schema", "op:record-features", "op:second-cycle", "op:predicted-areas", "op:reused-object",
        "shape:protocluster-over-origin", "shape:sideloaded-area-over-origin", "shape:cross-cds-module",
        "shape:double-carrier-module", "shape:nested-subtype", "shape:split-tta-codon", "shape:tta-skipped-low-gc",
        "shape:gc-equals-threshold", "shape:fungal-multipliers", "shape:hmmer-boundary-hit",
@@ -167,6 +169,8 @@ def setup(ctx) -> None:
     S.originals = [(subprocessing, "run_hmmscan", subprocessing.run_hmmscan),
                    (DI, "find_domains", DI.find_domains), (DI, "find_subtypes", DI.find_subtypes),
                    (DI, "find_ab_motifs", DI.find_ab_motifs), (DI, "get_database_path", DI.get_database_path)]
+    S.originals.append((CP.Ruleset, "from_files", CP.Ruleset.__dict__["from_files"]))
+    CP.Ruleset.from_files = classmethod(_fake_from_files)
     subprocessing.run_hmmscan = _fake_hmmscan
     DI.find_domains = _fake_find_domains
     DI.find_subtypes = lambda *a, **k: {}
@@ -211,19 +215,30 @@ def multipliers_of(case, override=None):
     return tuple(override or case["world"]["multipliers"])
 
 
+def _fake_from_files(cls, _signature_file, _seeds, rule_files, _categories, _filter_file, _tool, *,
+                     dynamic_profiles=None, multipliers=None):
+    """ stands in for reading the shipped signature and rule files: the generated rules of the strictness level the
+        rule files belong to (one file per level, cumulative), freshly parsed, unscaled unless multipliers are given """
+    del cls, dynamic_profiles
+    level = C.LEVELS[len(rule_files) - 1]
+    pair = (multipliers.cutoff, multipliers.neighbourhood) if multipliers is not None else (1.0, 1.0)
+    ruleset = C.build_ruleset(S.case, level, pair)
+    if ruleset is None:
+        raise ValueError(f"no generated rules for level {level}")
+    return ruleset
+
+
 def install_rulesets(case, multiplier_pairs) -> bool:
-    """ hand the generated rule sets to hmm_detection.get_ruleset through its own cache, under the key it computes """
-    cache = hmm_detection._RULESETS  # pylint: disable=protected-access
-    cache.clear()
-    for pair in multiplier_pairs:
-        for level in C.LEVELS:
-            try:
-                ruleset = C.build_ruleset(case, level, pair)
-            except (ValueError, SyntaxError):
+    """ every case starts with an empty ruleset cache; hmm_detection.get_ruleset fills it itself, reading the
+        generated rules where it would read the shipped files. False when some level has no usable rules. """
+    del multiplier_pairs
+    hmm_detection._RULESETS.clear()  # pylint: disable=protected-access
+    for level in C.LEVELS:
+        try:
+            if C.build_ruleset(case, level, (1.0, 1.0)) is None:
                 return False
-            if ruleset is None:
-                return False
-            cache[(level, (), (), Multipliers(*pair))] = ruleset
+        except (ValueError, SyntaxError):
+            return False
     return True
 
 
@@ -513,6 +528,40 @@ def nonempty(short: str, results) -> bool:
     return len(results) > 0
 
 
+def results_file_schema_guard(ctx, case, record, full) -> None:
+    from antismash.common import serialiser
+    current = serialiser.AntismashResults.SCHEMA_VERSION
+    compatible = set(serialiser.AntismashResults.COMPATIBLE_SCHEMAS[current])
+    path = os.path.join(S.tmp, "whole.json")
+    try:
+        serialiser.AntismashResults("input.gbk", [record], [dict(full)], "verif").write_to_file(path)
+        with open(path, encoding="utf-8") as handle:
+            document = AJ.loads(handle.read())
+    except Exception as err:  # pylint: disable=broad-except
+        ctx.count("skipped:results-file-not-written:" + type(err).__name__)
+        return
+    for schema in (current, current + 1, current + 7, 0, -1, *sorted(compatible)):
+        ctx.count("guard:results-file:schema")
+        document["schema"] = schema
+        with open(path, "w", encoding="utf-8") as handle:
+            handle.write(AJ.dumps(document))
+        try:
+            serialiser.AntismashResults.from_file(path)
+            accepted = True
+        except ValueError:
+            accepted = False
+        except Exception as err:  # pylint: disable=broad-except
+            ctx.violate("results-file-load-crash", {"schema": schema, "current": current, "exception": type(err).__name__,
+                                                    "message": str(err)[:200]}, case)
+            return
+        should = schema == current or schema in compatible
+        if accepted and not should:
+            ctx.violate("results-file-of-another-schema-refused", {"schema": schema, "current": current,
+                                                                   "compatible": sorted(compatible)}, case)
+        elif not accepted and should:
+            ctx.violate("results-file-of-this-schema-loads", {"schema": schema, "current": current}, case)
+
+
 def run_case(ctx, case) -> None:
     S.case = case
     facts0 = case_facts(case)
@@ -552,6 +601,10 @@ def run_case(ctx, case) -> None:
                      "rules": [C.W.rule_text(r) for r in case["world"]["rules"]], "levels": case["levels"],
                      "sideload": case["sideload"], "domains": case["domains"],
                      "saved_modules": sorted(saved_a)} if len(filled) >= 4 else None)
+
+    # ---- the results file as a whole: one saved under another schema is refused, whichever way the schema differs
+    if zlib.crc32(repr(case["opts"]).encode()) % 8 == 0:
+        results_file_schema_guard(ctx, case, record_a, full_a)
 
     # ---- two reload cycles ---------------------------------------------------------------------
     saved_prev, view_prev, results_prev = saved_a, view_a, results_a
